@@ -104,6 +104,15 @@ Theorem C06_lines_final_text_monotone :
   exists log, breduce (ok_mono req) t = Some (concat (filter req (lines t)), log).
 Proof. exact breduce_exact. Qed.
 
+(* The same for LineMarkersPass, for every marker predicate, verdict function and text: the byte-level loop (markers
+   re-counted from each accepted candidate) produces the log of the instance-level loop on the marker list, the markers
+   left in the final text are that loop's result, and every line that is not a marker is still there, in order. *)
+Theorem C06_markers_byte_loop_is_instance_loop :
+  forall (ismark : text -> bool) (test : nat -> list text -> bst -> bool) (n fuel k : nat) (t : text) (s : bst) (log : list entry),
+  WFb (marks ismark t) s n ->
+  mb_agree ismark t (mbrun ismark test fuel k t s log) (run test fuel k (marks ismark t) s log).
+Proof. intros ismark test n. exact (mbrun_is_run ismark test n). Qed.
+
 Example C06_example_lines :
   lines (lines_transform [97;10;98;10;10;99]%N 1 3) = [[97;10];[99]]%N /\
   filter (fun l => N.eqb (hd 0%N l) 35) (lines (markers_transform (fun l => N.eqb (hd 0%N l) 35) [35;10;98;10;35;49;10;35]%N 1 2))
